@@ -235,10 +235,10 @@ fn renamed_to<'a>(pre: &View, post: &'a View, old: &str) -> Option<&'a String> {
 pub fn plan(quick: bool) -> Plan {
     let mut parts = vec![];
     if quick {
-        parts.push(Part::Bfs(Box::new(scenario("c04-churn", false)), lim(4, 60_000, 40.0)));
+        parts.push(Part::Bfs(Box::new(scenario("c04-churn", false)), lim(6, 3_000_000, 40.0)));
     } else {
-        parts.push(Part::Bfs(Box::new(scenario("c04-churn", false)), lim(6, 3_000_000, 600.0)));
-        parts.push(Part::Bfs(Box::new(scenario("c04-churn-multiprefix", true)), lim(5, 1_000_000, 300.0)));
+        parts.push(Part::Bfs(Box::new(scenario("c04-churn", false)), lim(8, 3_000_000, 600.0)));
+        parts.push(Part::Bfs(Box::new(scenario("c04-churn-multiprefix", true)), lim(6, 1_000_000, 300.0)));
     }
     Plan {
         property: "C04".into(),
